@@ -28,7 +28,8 @@ from simkit.seams import Seams, SimClock, get_zygote, in_fork
 
 SCRATCH_ROOT = "/dev/shm" if os.path.isdir("/dev/shm") else tempfile.gettempdir()
 FMT = {"xml": FileFormat.XML, "pb": FileFormat.PROTOBUF}
-MODE = {"ALWAYS": OverwriteExistingFile.ALWAYS, "SKIP": OverwriteExistingFile.SKIP}
+MODE = {"ALWAYS": OverwriteExistingFile.ALWAYS, "SKIP": OverwriteExistingFile.SKIP,
+        "ASK": OverwriteExistingFile.ASK_USER_INPUT}
 
 
 def normalise(fmt, data: bytes):
@@ -234,6 +235,12 @@ class Run(RunBase):
         path = self._path(rel)
         twin_path = self._path(rel + ".twin")
         mode, method, validate = op["mode"], op["method"], bool(op.get("validate", False))
+        ask_answer = None
+        if mode == "ASK":
+            # the user is asked only if the file exists; "n" must behave like SKIP, anything else like ALWAYS
+            ask_answer = op.get("answer", "y")
+            self.seams.answers = [ask_answer]
+            self.seams.asked = 0
         tag = _tag(op, args)
         existed = os.path.isfile(path)
         before = open(path, "rb").read() if existed else None
@@ -243,7 +250,8 @@ class Run(RunBase):
         # --- the pristine twin: a writer with the same arguments, constructed and used with nothing in between, in
         #     a process that never executed a run (simkit.seams.Zygote): nothing the runs of this process left
         #     behind (settings, caches, class attributes) can reach it
-        if mode == "SKIP" and existed:
+        eff_skip = existed and (mode == "SKIP" or (mode == "ASK" and ask_answer == "n"))
+        if eff_skip:
             twin_res = None
         else:
             target_is_dir = os.path.isdir(path)
@@ -290,8 +298,19 @@ class Run(RunBase):
             self.probe("midnight-between-two-writes-of-one-writer")
         rec["last_day"] = day
 
-        # --- oracle 4: SKIP leaves an existing file untouched
-        if mode == "SKIP" and existed:
+        if mode == "ASK":
+            self.seams.answers = []
+            if existed:
+                self.probe("asked-user-answer-" + ask_answer)
+                if exc is None and self.seams.asked != 1:
+                    raise Violation(f"C15/ask-user-not-asked/{tag}",
+                                    f"overwrite mode ASK_USER_INPUT onto an existing file asked the user "
+                                    f"{self.seams.asked} times")
+            elif self.seams.asked:
+                raise Violation(f"C15/asked-without-existing-file/{tag}",
+                                "overwrite mode ASK_USER_INPUT asked the user although the target did not exist")
+        # --- oracle 4: SKIP (or the answer 'n') leaves an existing file untouched
+        if eff_skip:
             self.probe("skip-onto-existing")
             after = open(path, "rb").read() if os.path.isfile(path) else None
             if exc is not None:
@@ -411,7 +430,8 @@ def _writer_user(rng, run, name, cfg):
         yield {"op": "construct", "w": w, "scn": rng.pick(scns), "fmt": fmt, "prec": prec, "meta": meta}
         for _ in range(rng.randint(1, 3)):
             op = {"op": "write", "w": w, "path": f"f{rng.randrange(cfg['n_paths'])}.{fmt}",
-                  "mode": "SKIP" if rng.chance(cfg["p_skip"]) else "ALWAYS",
+                  "mode": rng.weighted(["SKIP", "ALWAYS", "ASK"], [cfg["p_skip"], 1 - cfg["p_skip"], cfg.get("p_ask", 0.0)]),
+                  "answer": rng.choice(["y", "n"]),
                   "method": "scenario" if rng.chance(0.3) else "full",
                   "validate": rng.chance(0.3) if cfg["buggify_validate"] else False,
                   "readback": rng.chance(cfg["p_readback"])}
@@ -478,7 +498,7 @@ class C15(Property):
                        "foreign-protobuf-construct-before-xml-write", "skip-onto-existing", "always-onto-existing",
                        "midnight-between-two-writes-of-one-writer", "success-after-failed-write",
                        "both-write-methods-on-one-writer", "write-failed-as-twin", "identical-writers-compared",
-                       "readback-ok", "clock-crossed-midnight", "clock-went-backwards", "write-after-scenario-changed", "target-is-a-directory"]
+                       "readback-ok", "clock-crossed-midnight", "clock-went-backwards", "write-after-scenario-changed", "target-is-a-directory", "asked-user-answer-y", "asked-user-answer-n"]
     assumptions = [
         "the pristine twin is the library itself (fresh writer, fork-isolated): a defect that a fresh writer shows "
         "too is C01/C02/C03 territory and invisible here by construction",
@@ -494,7 +514,7 @@ class C15(Property):
                 "precisions": sorted(rng.sample(range(1, 13), rng.randint(1, 4))),
                 "n_paths": rng.randint(1, 4), "p_skip": rng.pick([0.0, 0.2, 0.5]), "p_fault": rng.pick([0.05, 0.1, 0.2]),
                 "buggify_validate": rng.chance(0.5), "p_readback": rng.pick([0.0, 0.3, 1.0]),
-                "mutate_inputs": rng.chance(0.35), "p_location": rng.pick([0.0, 0.3])}
+                "mutate_inputs": rng.chance(0.35), "p_location": rng.pick([0.0, 0.3]), "p_ask": rng.pick([0.0, 0.2, 0.4])}
 
     def gen_universe(self, rng, cfg):
         scenarios = {}
